@@ -52,3 +52,46 @@ META["C09"] = dict(
     note="Trusts: Lean kernel; IR dumper, fact extractor (derive lists read as paths). Host-shareability is the C08 closure.",
     technique="Lean 4 proof (exhaustive decision table by kernel evaluation + structural lemmas) + differential correspondence over all option sets",
 )
+META["C04"] = dict(
+    text="Kernel-checked C04: for every successful generation the output satisfies C04Ok -- groups numbered 0..n-1; for each group the resource struct has exactly one field per WGSL "
+         "variable of that group (declaration order, named after it, typed by resource kind), from_bindings passes field x to the @binding index of variable x with the matching "
+         "BindingResource constructor, the layout has exactly those indices, get_bind_group_layout/from_bindings/set refer to the group's own descriptor and index; set_bind_groups and "
+         "BindGroups::set call each group once in index order; the three pass impls forward (index, bind_group, offsets); the pipeline layout lists groups in index order. The spec is "
+         "stated over `varsOf m N` (filter by @group), not over the sorted map (C11_ok_content links them). The same decidable predicate is evaluated on the real output.",
+    design_ref="DESIGN.md section 5 (C04)",
+    note="Trusts: Lean kernel; IR dumper and fact extractor (from_bindings/set/set_bind_groups bodies are parsed structurally; trait text literally).",
+    technique="Lean 4 proof over the generator model + decidable spec evaluated on real output + differential correspondence",
+)
+META["C12"] = dict(
+    text="Kernel-checked C12 (C12Ok: struct exists iff overrides exist; one field per override of the matching scalar type, Option exactly with a default; required/optional entries keyed by "
+         "naga's key -- decimal @id else name -- from the override's own field with bool->1/0 or cast conversion; vertex/fragment helpers pass the map iff overrides exist) and "
+         "C12_required_resolves (with pairwise distinct naga keys, the map entry found under an override's key is the value converted from its own field; parametric in the value type, so "
+         "independent of floating point). Evaluated on real output; tied by correspondence of the overrides section.",
+    design_ref="DESIGN.md section 5 (C12)",
+    note="Trusts: nagaKey transcription of naga's process_overrides; numeric `as f64` round trip outside the model; OverridesScalar checked per module.",
+    technique="Lean 4 proof + decidable spec on real output + differential correspondence",
+)
+META["C13"] = dict(
+    text="Kernel-checked C13 (no range and no constant without a push-constant variable; otherwise exactly one range 0..TypeInner::size referring to PUSH_CONSTANT_STAGES whose value is "
+         "pushStagesSpec) and C13_stages_used / C13_stages_unused, which characterise that stage set through C03 (stages statically using the variable, or all stages with an entry point "
+         "when nothing uses it). Evaluated on the real output (plus size % 4 == 0); tied by correspondence of push-stages / push-ranges.",
+    design_ref="DESIGN.md section 5 (C13)",
+    note="Trusts: Ty.size = naga's TypeInner::size = WGSL byte size (validated against Ext.WgslLayout by the C05 check); CallsEarlier as in C03.",
+    technique="Lean 4 proof (corollary of the C03 reachability theorem) + decidable spec on real output + correspondence",
+)
+META["C14"] = dict(
+    text="Kernel-checked C14 (C14Ok: ENTRY_<UPPER> constants carry the exact names; compute entries get <UPPER>_WORKGROUP_SIZE = workgroup size and create_<name>_pipeline targeting the "
+         "entry by name; each fragment helper uses its own constant and asks for targetsNeeded = largest written @location + 1 targets (fragmentTargetCount_eq); each vertex helper's N and "
+         "buffer count equal its number of struct parameters; forwarders are the fixed templates). C14_legacy_counterexample documents the repaired defect (counting locations).",
+    design_ref="DESIGN.md section 5 (C14)",
+    note="Trusts: to_uppercase oracle; forwarder templates compared as normalised token text.",
+    technique="Lean 4 proof + decidable spec on real output + differential correspondence",
+)
+META["C15"] = dict(
+    text="Kernel-checked C15 (the exported constants are exactly m.consts.filterMap specConst: named scalar-literal constants in order, declared Rust type = the literal's WGSL type, value = the "
+         "literal's value as integer / IEEE bit pattern) and C15_skip (nothing else is exported). Partial: the decimal text of float literals (Rust Display -> rustc) is outside the model; the "
+         "extractor re-parses each emitted literal with Rust's own parser and the check compares bit patterns incl. -0.0, extremes, subnormals.",
+    design_ref="DESIGN.md section 5 (C15)",
+    note="Trusts: Rust's float Display/parse round trip (checked per literal by the extractor), constant evaluation by naga.",
+    technique="Lean 4 proof + decidable spec on real output (bit-exact literal re-parse) + correspondence",
+)
